@@ -5,6 +5,9 @@ Dev_NoFlushOnRefuse == {"NoFlushOnRefuse"}
 Dev_EarlyQueueRead == {"EarlyQueueRead"}
 Dev_UnlockBeforeWrite == {"UnlockBeforeWrite"}
 Dev_NoDropReport == {"NoDropReport"}
+Dev_WritesAfterDisconnect == {"WritesAfterDisconnect"}
+EnvNone == {}
+EnvDisc == {"disc"}
 SizesAll == {11, 30, 99}
 SizesNoOver == {11, 30}
 ===========================================================================
